@@ -93,6 +93,7 @@ type Env struct {
 	Manager *RecManager
 	Server  *smtp.Server
 	dir     string
+	ips     map[string]bool
 }
 
 // DeliverCall is one call of Manager.Deliver as seen by the recording wrapper.
@@ -301,8 +302,46 @@ func optH(s *string) string {
 	return vh.HS(*s)
 }
 
+// ipInners records net.ParseIP's verdict for every string ValidateDomainPart could hand it
+// when x is (the tail of) an address with a bracketed domain literal.
+func ipInners(x string, tab map[string]bool) {
+	if len(x) == 0 || x[len(x)-1] != ']' {
+		return
+	}
+	for p := 0; p < len(x); p++ {
+		if x[p] != '[' {
+			continue
+		}
+		d := x[p:]
+		for _, s := range []int{1, 6} {
+			if s <= len(d)-1 {
+				in := d[s : len(d)-1]
+				tab[in] = net.ParseIP(in) != nil
+				tab[strings.ToLower(in)] = net.ParseIP(strings.ToLower(in)) != nil
+			}
+		}
+	}
+}
+
+// IPTable encodes the recorded net.ParseIP verdicts.
+func (e *Env) IPTable() string {
+	keys := make([]string, 0, len(e.ips))
+	for k := range e.ips {
+		keys = append(keys, k)
+	}
+	sort.Strings(keys)
+	parts := make([]string, len(keys))
+	for i, k := range keys {
+		parts[i] = vh.HS(k) + "=" + vh.B(e.ips[k])
+	}
+	return join(parts)
+}
+
 // Facts computes the MAIL / RCPT parser oracles for every line-like chunk of the stream.
 func (e *Env) Facts(stream []byte) (mailT, rcptT string) {
+	if e.ips == nil {
+		e.ips = map[string]bool{}
+	}
 	seenM, seenR := map[string]bool{}, map[string]bool{}
 	var ms, rs []string
 	for _, chunk := range bytes.Split(stream, []byte("\n")) {
@@ -316,8 +355,10 @@ func (e *Env) Facts(stream []byte) (mailT, rcptT string) {
 		if !seenM[arg] {
 			seenM[arg] = true
 			m := smtp.VerifMailRegex(arg)
-			f := []string{vh.HS(arg), vh.B(m != nil), "0", "0", "~", "~", "~"}
+			f := []string{vh.HS(arg), vh.B(m != nil), "0", "0", "~", "~", "~", "~"}
 			if m != nil {
+				f[7] = vh.HS(m[1])
+				ipInners(m[1], e.ips)
 				if m[2] != "" {
 					f[2] = "1"
 					args, ok := smtp.VerifParseArgs(m[2])
@@ -340,6 +381,7 @@ func (e *Env) Facts(stream []byte) (mailT, rcptT string) {
 			if !seenR[addr] {
 				seenR[addr] = true
 				f := []string{vh.HS(addr), "0", "~", "~", "~"}
+				ipInners(addr, e.ips)
 				if r, err := e.Policy.NewRecipient(addr); err == nil {
 					f = []string{vh.HS(addr), "1", vh.HS(r.Address.Address), vh.HS(r.Domain), vh.HS(r.Mailbox)}
 				}
@@ -474,5 +516,5 @@ func Exec(in []string) []string {
 		status = "err:" + vh.HS(err.Error())
 	}
 	mt, rt := env.Facts(stream)
-	return []string{join(ReplyTokens(out)), mt, rt, env.HdrTable(), DumpStore(env.Store), status}
+	return []string{join(ReplyTokens(out)), mt, rt, env.HdrTable(), DumpStore(env.Store), status + ";" + env.IPTable()}
 }
